@@ -57,3 +57,11 @@ def drvC17dec (xs : List Nat) : String :=
     | 6 => s!"{optS (JedecMR.lpddr4BL m1)} {optS (JedecMR.lpddr4RL m2)} {optS (JedecMR.lpddr4WL m2)} {optS (JedecMR.lpddr4NWR m1)}"
     | _ => "bad-mem"
   | _ => "bad-line"
+
+/-- JEDEC decode of the electrical fields of DDR3/DDR4 MR1/MR2. in: mem mr1 mr2 ;
+out: "ron rtt_nom tdqs rtt_wr special" (special = write-levelling/Qoff/DLL-off/AL bits, 0 in normal operation) -/
+def drvC17elec (xs : List Nat) : String :=
+  match xs with
+  | [4, m1, m2] => s!"{JedecMR.ddr3Ron m1} {JedecMR.ddr3RttNom m1} {JedecMR.ddr3Tdqs m1} {JedecMR.ddr3RttWr m2} {JedecMR.ddr3Special m1}"
+  | [5, m1, m2] => s!"{JedecMR.ddr4Ron m1} {JedecMR.ddr4RttNom m1} {JedecMR.ddr4Tdqs m1} {JedecMR.ddr4RttWr m2} {JedecMR.ddr4Special m1}"
+  | _ => "bad-line"
